@@ -29,7 +29,7 @@ def make_schema(field_boosts=False, chars=False, vector=False, sortable=False):
         b=fields.BOOLEAN(stored=True),
         id=fields.ID(stored=True, unique=True, sortable=sortable),
         t=fields.TEXT(stored=True, chars=chars, vector=vector, sortable=sortable),
-        u=fields.TEXT(stored=True, field_boost=2.5 if field_boosts else 1.0),
+        u=fields.TEXT(stored=True, field_boost=(2.5 if field_boosts is True else float(field_boosts)) if field_boosts else 1.0),
         k=fields.KEYWORD(stored=True, scorable=True, sortable=sortable),
         n=fields.NUMERIC(int, stored=True, sortable=sortable),
         d=fields.DATETIME(stored=True, sortable=sortable),
@@ -56,7 +56,8 @@ def gen_doc(rng, key, maxlen=6, sparse=0.15, boosts=False, burst=0.0, boolean=Fa
     if rng.random() > 0.4:
         d["d"] = EPOCH + datetime.timedelta(days=rng.randint(0, 9))
     if boosts and rng.random() < 0.3:
-        d["_boost"] = rng.choice([0.5, 2.0, 3.0])
+        # 0.3 / 1.1: products that float32 cannot represent (the stored weight is rounded, sometimes upwards)
+        d["_boost"] = rng.choice([0.5, 2.0, 3.0, 0.3, 1.1])
     if boolean and rng.random() < 0.6:
         d["b"] = rng.random() < 0.5
     return d
